@@ -15,6 +15,8 @@ Template directives (lines starting with `//%%`):
   //%%                                  textual order); regex must match that loop's header text
   //%% @loopbody <k>                    following raw lines = proof block inserted as first statement of
   //%%                                  the k-th loop's body (ghost code only)
+  //%% @after /<regex>/  (or @before)   following raw lines = ghost code inserted after the UNIQUE line of the (rewritten) body
+  //%%                                  that matches the regex (AnchorLost unless exactly one line matches)
   //%% @props C01 C02                   obligations whose failing site is in this function belong to these
   //%%                                  properties only; a contract line ending in `// #C02` marks a clause that
   //%%                                  serves only that property
@@ -288,6 +290,7 @@ class Block:
         self.loopbody = {}     # k -> [(tline, text)]  proof block put first in the k-th loop body
         self.expects = []      # regexes the (whitespace-normalised) item text must match
         self.discard = False   # emit nothing (the block only checks @expect)
+        self.afters = []       # (regex, [(tline, text)]): ghost lines inserted after the unique body line matching regex
         self.dropinner = []    # names of nested fn items removed from this fn's body (they are extracted on their own: R-hoist)
         self.props = None      # @props: the properties this function's obligations belong to (None = all of the unit's)
 
@@ -391,6 +394,12 @@ def parse_template(path, assumed=False, root=None, includes=None):
                 section = cur.spec
             elif d == '@entry':
                 section = cur.entry
+            elif d.startswith('@after ') or d.startswith('@before '):
+                m = re.match(r'^@(after|before)\s+/(.*)/\s*$', d)
+                if not m:
+                    raise TemplateError('%s:%d bad @after/@before' % (path, i0))
+                cur.afters.append((m.group(2), [], m.group(1)))
+                section = cur.afters[-1][1]
             elif d.startswith('@loopbody '):
                 k = int(d.split()[1])
                 cur.loopbody[k] = []
@@ -630,6 +639,17 @@ def generate(template_path, repo_root, unit_name, canary=False):
                     if kidx < 1 or kidx > len(loops):
                         raise AnchorLost('%s::%s loop %d not found (%d loops)' % (b.file, b.name, kidx, len(loops)))
                     inserts.append((loops[kidx - 1][1] + 1, lines, 'loopbody%d' % kidx))
+                for ai, (rx, lines, where) in enumerate(b.afters):
+                    # ghost code after / before the unique line of the body that matches rx (searched in the comment-preserving text)
+                    offs, pos0 = [], 0
+                    for ln0 in body.split('\n'):
+                        start0 = pos0
+                        pos0 += len(ln0) + 1
+                        if re.search(rx, ln0):
+                            offs.append(pos0 if where == 'after' else start0)
+                    if len(offs) != 1:
+                        raise AnchorLost('%s::%s @after /%s/ matched %d lines' % (b.file, b.name, rx, len(offs)))
+                    inserts.append((min(offs[0], len(body)), lines, 'after%d' % (ai + 1)))
                 if b.entry:
                     inserts.append((1, b.entry, 'entry'))
                 inserts.sort(key=lambda x: x[0])
